@@ -67,6 +67,9 @@ structure Builder where
   /-- `id_nodes` -/
   idNodes : List (Str × Path)
   spans : SpanMap
+  /-- `open_prefixes`: the prefixes of the open elements as written in their start tags,
+      innermost first -/
+  openPrefixes : List Str
   deriving Repr, Inhabited
 
 /-- Result of one builder step. -/
@@ -81,7 +84,7 @@ inductive Step (α : Type) where
 def Builder.new (env : Env) : Builder :=
   { env := env, cur := ⟨.document, []⟩, parents := [],
     nsStack := [[(Env.emptyPrefix, Env.noNamespace)], [(Env.xmlPrefix, Env.xmlNamespace)]],
-    eb := none, seenIds := [], idNodes := [], spans := [] }
+    eb := none, seenIds := [], idNodes := [], spans := [], openPrefixes := [] }
 
 /-- Path of `current_node_id`. -/
 def Builder.curPath (b : Builder) : Path := (b.parents.map (fun f => f.rkids.length)).reverse
@@ -152,7 +155,9 @@ def Builder.prefix (b : Builder) (pfx : Str) (uri : StrSpan) (nameSpan : Span) :
 def attrDisplayName (pfx loc : Str) : Str :=
   if pfx.isEmpty then loc else pfx ++ [':'] ++ loc
 
-/-- `DocumentBuilder::attribute`. The duplicate test compares prefix and local name AS WRITTEN. -/
+/-- `DocumentBuilder::attribute`. The duplicate test compares prefix and local name AS WRITTEN;
+    the value is decoded, nothing else (xml:id normalisation happens in `open_element`, where the
+    expanded name is known). -/
 def Builder.attribute (b : Builder) (pfx loc value : StrSpan) : Step Builder :=
   match b.eb with
   | none => .panic
@@ -163,9 +168,8 @@ def Builder.attribute (b : Builder) (pfx loc value : StrSpan) : Step Builder :=
       match parseContentGo true value.start 0 value.text with
       | .error e => .err (ParseErr.ofContent e) b.env
       | .ok v =>
-        let v' := if loc.text == ['i', 'd'] && pfx.text == ['x', 'm', 'l'] then normalizeXmlId v else v
         let ab : AttributeBuilder :=
-          { pfx := pfx.text, name := loc.text, value := v',
+          { pfx := pfx.text, name := loc.text, value := v,
             nameSpan := Span.fromPrefixName pfx loc, valueSpan := value.span, prefixSpan := pfx.span }
         .ok { b with eb := some { eb with attributes := eb.attributes ++ [ab] } }
 
@@ -186,7 +190,15 @@ structure AttrLoop where
 def insertId (m : List (Str × Path)) (v : Str) (p : Path) : List (Str × Path) :=
   (v, p) :: m.filter (fun e => e.1 != v)
 
-/-- `for attribute_builder in element_builder.attributes { … }` of `open_element`. -/
+/-- `attribute_builder.value = normalize_xml_id(&attribute_builder.value)` under
+    `if name_id == self.xml_id_id`: it is the EXPANDED name that makes an attribute an xml:id,
+    whatever prefix is bound to the XML namespace. -/
+def xmlIdValue (nameId : Nat) (v : Str) : Str :=
+  if nameId == Env.xmlIdName then normalizeXmlId v else v
+
+/-- `for attribute_builder in element_builder.attributes { … }` of `open_element`: name
+    resolution, duplicate test by expanded name, then (for the name id of xml:id) value
+    normalisation, duplicate-ID test and the two index updates, then the attribute node. -/
 def addAttributes (stack : NsStack) (node : Path) : AttrLoop → List AttributeBuilder → Step AttrLoop
   | st, [] => .ok st
   | st, ab :: rest =>
@@ -196,21 +208,27 @@ def addAttributes (stack : NsStack) (node : Path) : AttrLoop → List AttributeB
     | .ok (env1, nameId) =>
       if st.seenNames.contains nameId then
         .err (.duplicateAttribute (attrDisplayName ab.pfx ab.name) ab.nameSpan) env1
-      else if nameId == Env.xmlIdName && st.seenIds.contains ab.value then
-        .err (.duplicateId ab.value ab.valueSpan) env1
       else
-        let seen := if nameId == Env.xmlIdName then ab.value :: st.seenIds else st.seenIds
-        let ids := if nameId == Env.xmlIdName then insertId st.idNodes ab.value node else st.idNodes
+      let value := xmlIdValue nameId ab.value
+      if nameId == Env.xmlIdName && st.seenIds.contains value then
+        .err (.duplicateId value ab.valueSpan) env1
+      else
+        let seen := if nameId == Env.xmlIdName then value :: st.seenIds else st.seenIds
+        let ids := if nameId == Env.xmlIdName then insertId st.idNodes value node else st.idNodes
         addAttributes stack node
           { env := env1, seenIds := seen, idNodes := ids, seenNames := st.seenNames ++ [nameId],
-            rkids := .node (.attribute nameId ab.value) [] :: st.rkids,
+            rkids := .node (.attribute nameId value) [] :: st.rkids,
             aspans := st.aspans ++ [(nameId, ab.nameSpan, ab.valueSpan)] } rest
 
 /-- Namespace nodes for `element_builder.namespaces`, in order (result is last first). -/
 def namespaceKids (decls : List (Nat × Nat)) : List Tree :=
   (decls.map (fun d => Tree.node (.namespace d.1 d.2) [])).reverse
 
-/-- `DocumentBuilder::open_element` followed by the two `span_info` calls of `_parse`. -/
+/-- `DocumentBuilder::open_element` followed by the two `span_info` calls of `_parse`.
+    Order in the Rust: `take().unwrap()`, push the declarations, resolve the element name (may
+    fail: nothing else has happened), add the element node and make it current,
+    `open_prefixes.push(element_builder.prefix)`, namespace nodes, attribute loop (may fail: the
+    prefix is already pushed then, but a failing parse drops the builder). -/
 def Builder.openElement (b : Builder) : Step Builder :=
   match b.eb with
   | none => .panic
@@ -229,7 +247,8 @@ def Builder.openElement (b : Builder) : Step Builder :=
       | .ok st =>
         .ok { env := st.env, cur := ⟨.element nameId, st.rkids⟩, parents := b.cur :: b.parents,
               nsStack := stack, eb := none, seenIds := st.seenIds, idNodes := st.idNodes,
-              spans := (b.spans.add ⟨node, .elementStart⟩ eb.span).addAttributeSpans node st.aspans }
+              spans := (b.spans.add ⟨node, .elementStart⟩ eb.span).addAttributeSpans node st.aspans,
+              openPrefixes := eb.pfx :: b.openPrefixes }
 
 /-- `consolidate_text` + `add(Value::Text)`: returns the path of the text node. -/
 def Builder.addText (b : Builder) (content : Str) : Builder × Path :=
@@ -285,12 +304,18 @@ def Builder.leave (b : Builder) (node : Path) (endSpan : StrSpan) : Step Builder
   | .ok b2 => .ok { b2 with spans := b2.spans.add ⟨node, .elementEnd⟩ endSpan.span }
   | r => r
 
-/-- `DocumentBuilder::close_element_immediate` + the `ElementEnd` span. -/
+/-- `DocumentBuilder::close_element_immediate` + the `ElementEnd` span: for an element both
+    `name_id_builder.pop()` and `open_prefixes.pop()`. -/
 def Builder.closeImmediate (b : Builder) (endSpan : StrSpan) : Step Builder :=
-  let b1 := if b.cur.value.isElement then { b with nsStack := b.nsStack.tail } else b
+  let b1 := if b.cur.value.isElement then
+      { b with nsStack := b.nsStack.tail, openPrefixes := b.openPrefixes.tail } else b
   b1.leave b.curPath endSpan
 
-/-- `DocumentBuilder::close_element` + the `ElementEnd` span. -/
+/-- `self.open_prefixes.last().map(|p| p.as_str()) == Some(prefix.as_str())`. -/
+def samePrefix (openPrefixes : List Str) (pfx : Str) : Bool := openPrefixes.head? == some pfx
+
+/-- `DocumentBuilder::close_element` + the `ElementEnd` span. The end tag has to repeat the name
+    as it is written in the start tag: same name id AND same written prefix. -/
 def Builder.closeElement (b : Builder) (pfx loc : StrSpan) (endSpan : StrSpan) : Step Builder :=
   match elementNameId b.env b.nsStack pfx.text loc.text pfx.span with
   | .panic => .panic
@@ -302,10 +327,11 @@ def Builder.closeElement (b : Builder) (pfx loc : StrSpan) (endSpan : StrSpan) :
     else
     match b.cur.value with
     | .element n =>
-      if n != nameId then
+      if n != nameId || !samePrefix b.openPrefixes pfx.text then
         .err (.invalidCloseTag pfx.text loc.text (Span.fromPrefixName pfx loc)) env1
       else
-        ({ b with env := env1, nsStack := b.nsStack.tail } : Builder).leave b.curPath endSpan
+        ({ b with env := env1, nsStack := b.nsStack.tail, openPrefixes := b.openPrefixes.tail } : Builder).leave
+          b.curPath endSpan
     | _ => ({ b with env := env1 } : Builder).leave b.curPath endSpan
 
 /-- `DocumentBuilder::comment` + span. -/
